@@ -327,7 +327,10 @@ class SamplerCore:
         import numpy as np
 
         if self.config.vectorize:
-            return self.config.log_likelihood(x), None
+            # Own float copy: later steps write into this array (zero-likelihood prior
+            # draws are replaced in place), while the array the user's function returns
+            # may be read-only or be reused by its next call
+            return np.array(self.config.log_likelihood(x), dtype=float), None
         elif self.config.pool is not None:
             results = list(self._get_distribute_func()(self.config.log_likelihood, x))
         else:
